@@ -1,6 +1,8 @@
 import OutrankModel.Gen.Src.C08
 import OutrankModel.Model.Stream
+import OutrankModel.Model.Pipeline
 import OutrankModel.Lemmas.Bridge
+import OutrankModel.Lemmas.PyStr
 /-! Source tie of C08: the decisions of the streaming loop of `estimate_importances_minibatches` as the source states them
 now; `step_uses_source` / `finish_uses_source` restate the whole model step with them. -/
 namespace Src.C08
@@ -47,5 +49,17 @@ theorem finish_uses_source {α : Type} (c : Stream.Cfg) (s : Stream.St α) :
        else ⟨s.done, false, s.invalid, s.lc⟩) := by
   simp only [Stream.finish, tail_used_model, decide_eq_true_eq]
 
+/-- `parse_csv_raw`: `header.strip().split(col_delimiter)` for a one-character delimiter (`none` = ValueError for `''`) -/
+theorem header_fields_model (header sep : String) (d : Char) (hd : sep.toList = [d]) :
+    headerFields header sep = some ((C16.splitOn d (C16.pyStrip header.toList)).map String.ofList) := by
+  unfold headerFields
+  simp [PyStr.split?_of_single _ sep d hd, PyStr.strip_model]
+
+/-- with the source's `col_delimiter = ','`: the column names the streaming loop compares every line's width with are the
+header reader of the pipeline model (`Pipeline.headerCols`) -/
+theorem header_cols_uses_source (header : String) : headerFields header "," = some (Pipeline.headerCols header.toList) := by
+  rw [header_fields_model header "," ',' (by simp)]; rfl
+
+example : headerFields " a,b c,,d\n" "," = some ["a", "b c", "", "d"] := by decide
 example : skipLine 3 3 = false ∧ skipLine 4 3 = true ∧ tailUsed 1024 = false ∧ tailUsed 1025 = true := by decide
 end Src.C08
